@@ -20,6 +20,7 @@ package main
 
 import (
 	"bytes"
+	"context"
 	"encoding/hex"
 	"flag"
 	"fmt"
@@ -879,6 +880,7 @@ func histExec(path []int, verbose bool) (res Result) {
 		}
 		res.Viols = append(res.Viols, rec.askAll(names[:i+1], path[:i+1], i == len(path)-1, order)...)
 	}
+	res.Viols = append(res.Viols, liveAfterApply(c, names, path)...)
 	k, e := env.StateKey(c.FSM)
 	if e != nil {
 		return Result{Err: e.Error()}
@@ -888,6 +890,67 @@ func histExec(path []int, verbose bool) (res Result) {
 	res.Info = fmt.Sprintf("%d,%d,%d", rec.queries, rec.requery, rec.changes)
 	if verbose {
 		res.Sample = map[string]any{"part": "history", "ops": names, "newest": rec.prev}
+	}
+	return
+}
+
+// liveAfterApply covers the production readers of a LIVE FSM: NewCertificateResults calls LotteryWinner ->
+// GetDelegates / GetCommitteeMembers on the FSM right after ApplyBlock (proposer: mempool copy; replica:
+// the main FSM), i.e. on the state "as of the next height" before it is committed. A block that stakes a
+// new delegate and a new validator is applied on a Copy (proposer path); the live answers must equal the
+// reference computed from a raw scan of that same uncommitted view.
+func liveAfterApply(c *env.Chain, ops []string, path []int) (viols []mc.Viol) {
+	h := c.Height()
+	dk := env.BLS(31 + int(h)%8)
+	both := []uint64{env.ChainID, c07lib.Chain2}
+	txs := [][]byte{
+		c07lib.MkTx(dk, &fsm.MessageStake{PublicKey: dk.PublicKey().Bytes(), Amount: 7, Committees: both, OutputAddress: env.Addr(dk).Bytes(), Delegate: true, Compound: true}, c07lib.Fee, h, ts(h, 50), ""),
+		c07lib.Stake(39, 6, both, h, ts(h, 51)),
+	}
+	cp, err := c.FSM.Copy()
+	if err != nil {
+		return []mc.Viol{{Sig: "C13:harness-error", What: err.Error()}}
+	}
+	defer cp.Discard()
+	lastQC, err := c.LastQC()
+	if err != nil {
+		return []mc.Viol{{Sig: "C13:harness-error", What: err.Error()}}
+	}
+	if lastQC != nil {
+		if err = cp.Store().(lib.StoreI).IndexQC(lastQC); err != nil {
+			return []mc.Viol{{Sig: "C13:harness-error", What: err.Error()}}
+		}
+	}
+	blk := &lib.Block{BlockHeader: &lib.BlockHeader{Time: c07lib.BlockTime(h), ProposerAddress: env.Addr(env.BLS(0)).Bytes(), LastQuorumCertificate: lastQC}, Transactions: txs}
+	if _, r, e := cp.ApplyBlock(context.Background(), blk, true); e != nil || len(r.Failed) != 0 {
+		return nil // the extra block is not applicable in this state (not part of the property)
+	}
+	recs, e2 := scanValidators(cp.Store())
+	cs, e3 := capsAt(cp)
+	if e2 != nil || e3 != nil {
+		return []mc.Viol{{Sig: "C13:harness-error", What: fmt.Sprint(e2, e3)}}
+	}
+	for _, chain := range both {
+		for _, delegate := range []bool{true, false} {
+			if !delegate && chain != env.ChainID {
+				continue // LotteryWinner(id, true) only asks for the node's own committee
+			}
+			capv, role := cs.Val, "validators"
+			var got string
+			if delegate {
+				capv, role = cs.Del, "delegates"
+				got = renderVS(cp.GetDelegates(chain))
+			} else {
+				got = renderVS(cp.GetCommitteeMembers(chain))
+			}
+			want := reference(recs, chain, delegate, capv).render()
+			if got != want {
+				viols = append(viols, mc.Viol{Sig: fmt.Sprintf("C13:live-after-apply-block:%s:%s", role, classify(got, want)),
+					What: fmt.Sprintf("ops=%v then proposer-path ApplyBlock of [stake delegate(7), stake validator(6)] at height %d: live FSM answers committee %d %s = %s, reference from the same uncommitted view = %s",
+						ops, h, chain, role, got, want),
+					Replay: replayArt{Kind: "history", Path: path, Ops: ops, Height: h, Role: role, Got: got, Want: want}})
+			}
+		}
 	}
 	return
 }
@@ -983,6 +1046,17 @@ func main() {
 		}
 		return false
 	}
+	// the 70-height chain and the overflow populations run next to everything else from the start (own worker)
+	sideJobs := []Job{{Kind: "long", N: 70}, {Kind: "big"}}
+	type sideOut struct {
+		res     []*Result
+		crashed []bool
+	}
+	sideCh := make(chan sideOut, 1)
+	go func() {
+		rs, cr := mc.Map[Job, Result](mc.NewProcPool(1), sideJobs, nil)
+		sideCh <- sideOut{rs, cr}
+	}()
 	var hq, hrq, hch int64
 	bs := mc.ReplayBFS(mc.BFSConfig{Tag: "hist", NumOps: len(histOps), MaxDepth: depth, Pool: pool, OnViol: r.OnViol, Stop: histStop,
 		OnState: func(path []int, er *mc.ExecResult) {
@@ -1003,7 +1077,7 @@ func main() {
 	}
 
 	var jobs []Job
-	jobs = append(jobs, Job{Kind: "long", N: 70}, Job{Kind: "big"})
+	jobs = append(jobs, sideJobs...) // placeholders: their results are filled in from the side worker below
 	pops := gridPopulations(quick)
 	for from := 0; from < len(pops); from += packSize {
 		for ci := range capSettings {
@@ -1029,7 +1103,13 @@ func main() {
 		copy(jobs[2:], perm)
 	}
 	fmt.Printf("grid: %d populations x %d cap settings in %d packs\n", len(pops), len(capSettings), len(jobs)-2)
-	results, crashed := mc.Map[Job, Result](pool, jobs, r.Expired)
+	results, crashed := make([]*Result, len(jobs)), make([]bool, len(jobs))
+	gr, gc := mc.Map[Job, Result](pool, jobs[2:], r.Expired)
+	copy(results[2:], gr)
+	copy(crashed[2:], gc)
+	side := <-sideCh
+	copy(results[:2], side.res)
+	copy(crashed[:2], side.crashed)
 	var evals, gpops, capBinds, cutsTie, empty, queries, done int
 	nontriv := map[string]int{}
 	var longRes *Result
